@@ -495,6 +495,20 @@ impl MqttShared {
         }
     }
 
+    /// Wait until a packet can be sent.
+    ///
+    /// Readiness is checked again after every wake-up, a slot could be
+    /// taken by another sender in the meantime. Caller must register
+    /// its packet without yielding.
+    pub(super) async fn wait_ready(&self) -> bool {
+        while let Some(rx) = self.wait_readiness() {
+            if rx.await.is_err() {
+                return false;
+            }
+        }
+        true
+    }
+
     /// Register ack in response channel
     pub(super) fn release_publish(
         &self,
